@@ -9,10 +9,52 @@ use vcore::dbx::{self, Ctx};
 use vcore::layout::*;
 use vcore::report::*;
 
+/// What the client owes the terminal for one packet.
+#[derive(Clone, Debug)]
+pub enum Answer {
+    /// the acknowledgement 80 00 00
+    Ack,
+    /// a data block: WriteData carrying this file id, this offset and exactly these bytes
+    Data { id: u8, offset: u32, payload: Vec<u8> },
+}
+
+impl Answer {
+    pub fn describe(&self) -> String {
+        match self {
+            Answer::Ack => "acknowledgement 800000".into(),
+            Answer::Data { id, offset, payload } => format!("data block (file {id:#04x}, offset {offset}, {} bytes {})", payload.len(), hex_short(payload)),
+        }
+    }
+    /// does the written packet satisfy the obligation?
+    pub fn satisfied_by(&self, w: &[u8]) -> bool {
+        match self {
+            Answer::Ack => w == [0x80, 0x00, 0x00],
+            Answer::Data { id, offset, payload } => {
+                let table = vcore::layout::shipped_static();
+                let codec = vcore::codec::Codec::new(table);
+                let ty = table.get("feig::WriteData");
+                match codec.decode(ty, w) {
+                    Ok((v, used)) if used == w.len() => {
+                        let some = Some(v);
+                        let g = |p: &str| crate::client::get_path(table, "feig::WriteData", &some, p);
+                        let pl = match g("tlv.file.payload") {
+                            Some(vcore::codec::Val::Bytes(b)) => b,
+                            Some(vcore::codec::Val::None) => vec![],
+                            _ => return false,
+                        };
+                        g("tlv.file.file_id") == Some(vcore::codec::Val::Int(*id as u64)) && g("tlv.file.file_offset") == Some(vcore::codec::Val::Int(*offset as u64)) && pl == *payload
+                    }
+                    _ => false,
+                }
+            }
+        }
+    }
+}
+
 pub struct Exchange<'a> {
     pub cmd: &'a [u8],
-    /// (packet bytes, expected Debug of the yielded item, expected answer bytes)
-    pub script: Vec<(&'a [u8], String, Vec<u8>)>,
+    /// (packet bytes, expected Debug of the yielded item, answer owed)
+    pub script: Vec<(&'a [u8], String, Answer)>,
     pub trailer: &'a [u8],
     pub dropped: bool,
 }
@@ -65,9 +107,9 @@ pub fn verify(ex: &Exchange, events: &[Ev], log: &RunLog) -> Vec<String> {
             return problems;
         }
         match it.next() {
-            Some(Ev::Write(w)) if w == answer => {}
+            Some(Ev::Write(w)) if answer.satisfied_by(w) => {}
             other => {
-                problems.push(format!("packet {k} must be answered by exactly one {} before it is yielded and before anything else is read, got {:?}", hex_short(answer), short_ev(other)));
+                problems.push(format!("packet {k} must be answered by exactly one {} before it is yielded and before anything else is read, got {:?}", answer.describe(), short_ev(other)));
                 return problems;
             }
         }
@@ -198,7 +240,7 @@ pub fn run(run: &RunInfo) -> Summary {
                             drop(s);
                             *ctx = Rc::try_unwrap(sh).ok().expect("context still shared").into_inner();
                             acc.count("executions", 1);
-                            let ex = Exchange { cmd: &cmd_bytes, script: script.iter().map(|l| (&l.bytes[..], l.debug.clone(), ACK.to_vec())).collect(), trailer: &trailer, dropped };
+                            let ex = Exchange { cmd: &cmd_bytes, script: script.iter().map(|l| (&l.bytes[..], l.debug.clone(), Answer::Ack)).collect(), trailer: &trailer, dropped };
                             let mut problems = verify(&ex, &events, &log);
                             if problems.is_empty() && consumed != total {
                                 problems.push(format!("the sequence consumed {consumed} bytes, the exchange ends at byte {total} (trailer of {} bytes must stay in the connection)", trailer.len()));
